@@ -332,7 +332,7 @@ fn execute_info(path: PathBuf) -> Result<()> {
             }
         }
 
-        table.printstd();
+        table.print_tty(false)?;
     }
 
     Ok(())
